@@ -101,7 +101,7 @@ def canon_impl_lines(lines, shapes_by_id, meta):
             except Exception as e:
                 out.append(f"{p[0]} {p[1]} ?unparsable({e!r}) {p[2][:200]}")
             continue
-        if len(p) < 3 or p[1] not in ('D', 'DR') or p[2] == 'PANIC':
+        if len(p) < 3 or p[1] not in ('D', 'DR', 'DWN', 'DWB') or p[2] in ('PANIC', 'UNDECODABLE'):
             out.append(l); continue
         sid = meta[p[0]][0]
         try:
